@@ -26,7 +26,8 @@ CLAIMS = {
             "coincidence, all end points inside a convex operand; three numeric kernel axioms), so a carrier-line hit "
             "returned without clipping, a dropped membership conjunct or a wrongly guarded end point is reported at the "
             "offending statement; (2) every end point of each operand is offered as a candidate in the collinear "
-            "branches (whole-operand returns for nested half-lines), so overlaps are not reduced to one end point; (3) the "
+            "branches (whole-operand returns for nested half-lines) and no result return -- in particular no `return None` -- "
+            "can bypass a candidate, so overlaps are not reduced to one end point or reported as disjoint; (3) the "
             "kernels' partial operations (division by n.dv, normalised cross products) are guarded by the parallel tests. "
             "NOT decided: that the kernels compute the right coordinates, that no point is missed in generic position, "
             "the tolerance band, None only when disjoint."
@@ -40,8 +41,8 @@ CLAIMS = {
             "Decides structural necessary conditions of C02: confinement of every return site of the 10 flat x "
             "{polygon, polyhedron} handlers and of the 3 hit-set helpers in both operands; boundary-family completeness "
             "(faces AND edges of the polyhedron, the full edge cycle of the polygon, contained end points / origin added "
-            "under their membership test) with identical abstract summaries of the two sibling helpers; propositional "
-            "exhaustiveness of the end-point case split of segment x polyhedron. NOT decided: coordinates, the "
+            "under their membership test, no result return bypassing a family) with identical abstract summaries of the two "
+            "sibling helpers; propositional exhaustiveness of the end-point case split of segment x polyhedron. NOT decided: coordinates, the "
             "longest-segment selection, hash-merging of coincident hits, tangency classification."
         ),
         note=NOTE_COMMON + "A4 as for C01.",
@@ -52,8 +53,8 @@ CLAIMS = {
         text=(
             "Decides structural necessary conditions of C03: confinement of every return site of the three body x body "
             "handlers; swap closure of the candidate collection (vertices of a in b and of b in a, alpha-equivalent; edge "
-            "crossings through the symmetric helper; faces of each polyhedron clipped by the other feeding the same sets); "
-            "result selection ordered by dimension and the cardinality ladders 0/1/2 points -> None/Point/Segment. NOT "
+            "crossings through the symmetric helper; faces of each polyhedron clipped by the other feeding the same sets; "
+            "every result return -- in particular `return None` -- lies behind all of these candidate families); result selection ordered by dimension and the cardinality ladders 0/1/2 points -> None/Point/Segment. NOT "
             "decided: that the collected vertex set is the true one, Euler reassembly, hash deduplication, measures."
         ),
         note=NOTE_COMMON + "A4 as for C01.",
@@ -111,7 +112,9 @@ CLAIMS = {
             "missing in_); (2) every composite branch tests all defining points of x (both end points of a Segment; origin "
             "plus a direction condition of the right tangent/normal kind for HalfLine and Line; plane equality or a "
             "universally quantified vertex loop for ConvexPolygon), which by convexity of S is equivalent to containment "
-            "while dropping a conjunct is not. NOT decided: the numerical truth of the Point-in-S predicates, inclusive "
+            "while dropping a conjunct is not; (3) for the bounded containers every accepting return of the Point branch depends on "
+            "or is guarded by membership in the carrier line / plane, and the polyhedron test is a universal loop over all faces; "
+            "(4) every membership predicate is effect-free, so one `in` test cannot change the answer of the next. NOT decided: the numerical truth of the Point-in-S predicates, inclusive "
             "boundaries and the tolerance band."
         ),
         note=NOTE_COMMON + "Defining points are read from the inferred field table, not hard-coded.",
@@ -142,8 +145,9 @@ CLAIMS = {
             "representation freedoms its __eq__ ignores -- length and sign of a Line's direction, sign of a Plane's normal, "
             "positive scale of a HalfLine's vector, exchange of a Segment's end points, plane orientation and vertex/face "
             "order of polygons/polyhedra, and the choice of the stored support point of a Line / Plane -- decided in a "
-            "degree/parity domain and by polynomial normal forms of the hashed value; Segment.__eq__ accepts both "
-            "pairings; __eq__ uses direction fields only under parallel()/normalized(). NOT decided: that different sets "
+            "degree/parity domain and by polynomial normal forms of the hashed value; __eq__/__hash__ store nothing on the "
+            "(mutable) object, so a remembered hash cannot go stale after move / coordinate assignment / tolerance change; "
+            "Segment.__eq__ accepts both pairings; __eq__ uses direction fields only under parallel()/normalized(). NOT decided: that different sets "
             "compare unequal, rounding-boundary effects, int/Fraction mixing."
         ),
         note=NOTE_COMMON + "hash(), round() and normalized() are modelled as functional opaque atoms of their canonical arguments.",
@@ -156,7 +160,8 @@ CLAIMS = {
             "four swapped orders forward to distance(b, a) (one computation for both orders, no unbounded recursion), the "
             "else raises; every returned value is non-negative (sign domain); the method forms forward (self, other); and "
             "no normalised cross product of direction vectors is taken without a guard that excludes parallel AND "
-            "anti-parallel operands on every path (R-CROSS), so that parallel lines cannot raise. NOT decided: that the "
+            "anti-parallel operands on every path (R-CROSS), so that parallel lines cannot raise; every computed value is of degree 0 "
+            "and even in each Line's direction vector (two representations of one line give one distance). NOT decided: that the "
             "value is the Euclidean minimum and that it is zero exactly when the operands intersect."
         ),
         note=NOTE_COMMON,
@@ -181,7 +186,9 @@ CLAIMS = {
             "Decides four structural clauses of C14: the seven builders have no effect on their arguments (every in-place "
             "move acts on a deep copy or a fresh Point -- interprocedural effect summaries); the circle frame's normalised "
             "cross products are guarded against parallel AND anti-parallel operands for each reaching definition of the "
-            "base axis, so axis directions along or opposite to a coordinate axis cannot raise; n < 3 is rejected on every "
+            "base axis, so axis directions along or opposite to a coordinate axis cannot raise; both frame vectors of the circle are "
+            "cross products with the normal as a factor, mutually perpendicular and of equal length by construction (vertices stay in "
+            "the circle's plane for every normal, also near-axis ones); n < 3 is rejected on every "
             "path with the right threshold; every ring/cap/side loop ranges over the full index range with a wrap-around "
             "successor. NOT decided: vertex/edge/face counts, vertices on the specified surface at equal steps, closed-form "
             "area and volume (numeric)."
@@ -214,8 +221,8 @@ CLAIMS = {
             "equal the textbook component formulas (any algebraically equal rewrite is accepted; the identities "
             "a.(a x b)=0, a x b=-(b x a), Lagrange are re-derived); these operations contain no coercion, division or "
             "float literal; the promotion ranks are user < Fraction < Decimal < float < int with the minimum selected and "
-            "applied to every item; both constructors store promoted coordinates on every path; acos is clamped. NOT "
-            "decided: |normalized(v)| = 1 and direction preservation over magnitudes, Decimal behaviour (numeric)."
+            "applied to every item; both constructors store promoted coordinates on every path; zero() and the unit vectors "
+            "build a fresh Vector on every call (not memoised, no shared state); acos is clamped. NOT decided: |normalized(v)| = 1 and direction preservation over magnitudes, Decimal behaviour (numeric)."
         ),
         note=NOTE_COMMON + "A rewrite outside the handled fragment (numpy, explicit loops) fails closed with exit 2.",
     ),
@@ -243,7 +250,8 @@ CLAIMS = {
             "their matrix, the configuration setters) writes no object reachable from a parameter, self or module state, "
             "hence intersection, in, distance, angle, parallel, orthogonal, ==, hash, repr, length, area, volume and all "
             "their helpers are pure; the mutators write only their receiver; no query writes module/class state or reads "
-            "mutable globals other than tolerance and logger (history independence); the constructors of Segment, "
+            "mutable globals other than tolerance and logger, no memoised function hands out a mutable object (history "
+            "independence); the constructors of Segment, "
             "HalfLine, ConvexPolygon, ConvexPolyhedron capture nothing by reference and Line built from Points stores "
             "fresh vectors; no copy hooks, __slots__ or identity-based eq/hash, so the default deep copy is independent "
             "and equal. Outside: floating-point values of the snapshots."
